@@ -2,7 +2,7 @@
    correctly.  ONLY statements; each is closed by [exact] of a lemma from Proofs/Hist.v.
    The model (Model/Hist.v) describes the repaired code: floor binning (D7), rank walk that
    subtracts the under count and tests count >= goal (D8). *)
-From MM Require Import Base.Num Model.Hist Proofs.Hist.
+From MM Require Import Base.Num Model.Hist Proofs.Hist Check.C14 Proofs.CheckC14.
 From Coq Require Import Qround.
 Local Open Scope Q_scope.
 
@@ -186,3 +186,91 @@ Example C14_quantile_example :
   hist_iqr (fun p => p) h = None /\
   match hist_iqr (fun p => p) (mkH 0 [2; 0; 3]%N 1) with Some v => v == 13 # 6 | None => False end.
 Proof. vm_compute. repeat split; reflexivity. Qed.
+
+(* ---- what a passing verdict of the correspondence comparator means (Proofs/CheckC14.v) ---- *)
+(* If check_C14 accepts a case line (code 0 = ok or 1 = borderline) then the line parses, the
+   construction observables are as specified ([shape_spec]: len(Counts) = nbins for a LinearHist;
+   for a LogHist status 0 and max^m <= b^n, b^(n-1) < max^m for n = len(Counts), up to the
+   relative window delta_log) and EVERY recorded operation satisfies [op_ok] against the
+   counters tracked so far:
+   - Add(x): exactly one counter changed, by exactly +1, and it is the counter the stated edges
+     select ([lin_slot_spec]/[log_slot_spec]: BinToValue(i) <= x' < BinToValue(i+1), under, over)
+     for x itself or - the explicit borderline window - for some x' with |x'-x| <= lin_window
+     (2^-46 * |x-min| + 2^-900 bin widths), resp. on the other side of an edge b^k only if
+     x^m is within relative k*2^-46 of b^k (never at the first edge);
+   - BinToValue(bin): finite and within tol_lin_btv of min + bin*(max-min)/nbins, resp.
+     v^(m*den) within relative 2*m*den*tol_log_v of b^num for bin = num/den (m*den <= 64,
+     anything else is REJECTED);
+   - HistogramQuantile(q): for a goal g in [goal_window] (floor(total*q), of its binary64
+     rounding, or of total*q*(1 -/+ 2^-50)): NaN with no BinToValue call exactly when the g-th
+     smallest sample is in the under-/over-flow; otherwise exactly one BinToValue call at
+     bin + j/c (4 ulp), bin being the bin holding the g-th sample ([below h bin < g <= below h
+     bin + c]) and j its rank in the bin, the returned value being the value of that call and
+     inside the bin / interpolated ([ret_spec]); a panic is never accepted;
+   - Counts(): equal to the tracked counters; HistogramIQR: status 0 and |iqr - (Q75 - Q25)| <=
+     2 ulp (|Q75|+|Q25|) for the two recorded quantiles, NaN iff one of them is NaN. *)
+Theorem C14_check_ok_sound : forall line c tag pos diag k h0 v0 t0 ops rest,
+  check_C14 line = verdict c tag pos diag -> (c = 0 \/ c = 1)%Z ->
+  p_line line = Some ((k, h0, v0, t0, ops), rest) ->
+  v0 <> 2%Z /\ case_ok line k h0 v0 ops.
+Proof. exact check_ok_sound. Qed.
+Print Assumptions C14_check_ok_sound.
+
+(* Code 0 (ok, not borderline): no window was used - every Add went to the counter the edges
+   select for x itself, every quantile goal is floor(total*q), a LogHist has exactly
+   ceil(m*log_b max) bins. *)
+Theorem C14_check_ok_exact : forall line tag pos diag k h0 v0 t0 ops rest,
+  check_C14 line = verdict 0 tag pos diag ->
+  p_line line = Some ((k, h0, v0, t0, ops), rest) ->
+  case_ok_exact line k h0 v0 ops.
+Proof. exact check_ok_exact. Qed.
+Print Assumptions C14_check_ok_exact.
+
+(* Acceptance presupposes a complete parse: no line is accepted without being decoded to the end. *)
+Theorem C14_check_accepts_only_parsed : forall line c tag pos diag,
+  check_C14 line = verdict c tag pos diag -> (c = 0 \/ c = 1)%Z -> exists cs, p_line line = Some (cs, []).
+Proof. exact check_accepts_only_parsed. Qed.
+Print Assumptions C14_check_accepts_only_parsed.
+
+(* The counters every operation is compared against: the initial ones plus, per counter, the
+   number of recorded Adds whose reported index names that counter; the n-th operation is
+   compared against the counters after the first n operations. *)
+Theorem C14_check_tracked_counts : forall ops h s c, valid_slot (length (h_bins h)) s -> slot_count h s = Some c ->
+  slot_count (final_state h ops) s = Some (c + adds_at (length (h_bins h)) s ops)%N.
+Proof. exact tracked_counts. Qed.
+Print Assumptions C14_check_tracked_counts.
+
+Theorem C14_check_nth_operation : forall k ops h n op, ops_ok k h ops -> nth_error ops n = Some op ->
+  op_ok k (final_state h (firstn n ops)) op.
+Proof. exact ops_ok_nth. Qed.
+Print Assumptions C14_check_nth_operation.
+
+(* the edge specification used above is the one of the binning theorems *)
+Theorem C14_lin_slot_spec_iff : forall mn mx nb x s, mn < mx -> (0 < nb)%nat ->
+  (lin_slot mn mx nb x = s <-> lin_slot_spec mn mx nb x s).
+Proof. exact lin_slot_spec_iff. Qed.
+Print Assumptions C14_lin_slot_spec_iff.
+
+Theorem C14_log_slot_spec_iff : forall b m nb x s, 1 < b -> (0 < m)%nat ->
+  (log_slot b m nb x = s <-> log_slot_spec b m nb x s).
+Proof. exact log_slot_spec_iff. Qed.
+Print Assumptions C14_log_slot_spec_iff.
+
+(* the goal window of C14_check_ok_sound without the Check-side rounding function: every
+   admissible goal is the floor of a number within relative 2^-50 of total*q *)
+Theorem C14_goal_window_close : forall total q g, goal_window total q g ->
+  exists t', Qabs (t' - QofN total * q) <= eps_goal * Qabs (QofN total * q) /\ g = Qfloor t'.
+Proof. exact goal_window_close. Qed.
+Print Assumptions C14_goal_window_close.
+
+(* Non-vacuity: LinearHist [0,4) in 4 bins; Add(1.5) -> bin 1; Counts; Quantile(1) -> BinToValue(2) = 2;
+   BinToValue(0.5) = 0.5.  Accepted with code 0, and the line parses to the end. *)
+Example C14_check_ok_example :
+  let line := [14; 0; 0; 4616189618054758400; 4; 4; 4; 0; 4609434218613702656; 1; 1; 1; 3; 0; 4; 0; 1; 0; 0; 0;
+               2; 4607182418800017408; 0; 1; 4611686018427387904; 4611686018427387904; 4611686018427387904;
+               1; 4602678819172646912; 4602678819172646912]%Z in
+  (exists tag, check_C14 line = verdict 0 tag (-1) []) /\ (exists cs, p_line line = Some (cs, [])) /\
+  (* the same history with the Add reported in the neighbouring bin is rejected *)
+  (exists tag pos diag, check_C14 [14; 0; 0; 4616189618054758400; 4; 4; 1; 0; 4609434218613702656; 1; 2; 1]%Z
+                        = verdict 2 tag pos diag).
+Proof. vm_compute. split; [eexists; reflexivity|]. split; [eexists; reflexivity|]. do 3 eexists; reflexivity. Qed.
